@@ -13,6 +13,7 @@ Line protocol (one case per line, `key=value` tokens):
   gidx sizes=<nats> sel=<S;S;..>   S = `*` | nats              -> <nats>
   block rows=<row;row;..> ro=<n> rs=<n> co=<n> cs=<n>          -> <row;row;..>
   close t=<rat> a=<rats> b=<rats>                             -> <bits>
+  chk t=<rat> a=<row;row> b=<row;row> rows=<nats> cols=<nats>  -> 0|1   (check_jacobian(indices))
 -/
 
 def kv (toks : List String) (k : String) : Option String :=
@@ -104,6 +105,11 @@ def answer (line : String) : String :=
     match kv rest "rows" >>= parseVecs?, kv rest "ro" >>= String.toNat?, kv rest "rs" >>= String.toNat?,
           kv rest "co" >>= String.toNat?, kv rest "cs" >>= String.toNat? with
     | some rows, some ro, some rs, some co, some cs => showVecs (block rows ro rs co cs)
+    | _, _, _, _, _ => "bad-args"
+  | "chk" :: rest =>
+    match kv rest "t" >>= parseRat?, kv rest "a" >>= parseVecs?, kv rest "b" >>= parseVecs?,
+          kv rest "rows" >>= parseNatList?, kv rest "cols" >>= parseNatList? with
+    | some t, some a, some b, some rows, some cols => if checkJac t a b rows cols then "1" else "0"
     | _, _, _, _, _ => "bad-args"
   | "close" :: rest =>
     match kv rest "t" >>= parseRat?, kv rest "a" >>= parseRatList?, kv rest "b" >>= parseRatList? with
